@@ -13,7 +13,10 @@ RULE = ("exhaustive: every profile over alternatives {1..m}, m <= 3, made of 1 o
         "the alternatives (so alternatives may be tied or unranked), multiplicities in {1,2}; data type = the type "
         "inferred from the ballots. random: m <= 7 (thorough <= 9), arbitrary ids in shuffled insertion order, all four "
         "ordinal types, planted patterns (two alternatives tied in every ballot, an alternative nobody ranks, two "
-        "alternatives never ranked together, Condorcet winner / weak winner / cycle), multiplicities up to 10^12, and "
+        "alternatives never ranked together, Condorcet winner / weak winner / cycle, knife-edge margins of +1/0/-1 on "
+        "counts around 2^53 / 2^63 / 2^64 / 10^30), the id 0 in ~20%% of the instances (as planted winner, tied "
+        "alternative, never-ranked alternative) and exhaustively over ids {0,1,2}, multiplicities beyond 2^53 and "
+        "2^64 in ~20%%, and "
         "the type guards on non-ordinal data_type values; every fifth random instance is written as PrefLib text and "
         "read by OrdinalInstance.parse_str, the others are built by direct field assignment. Observables: the three tables as sorted (a,b,value) lists, "
         "has_condorcet for both flags, borda scores per alternative (missing = 0), order_to_pwg re-read into "
@@ -86,6 +89,13 @@ def generate(tier, seed):
             for k1 in range(1, kmax + 1):
                 for k2 in range(1, kmax + 1):
                     out.append(case("c07.all", payload(alts, [(o1, k1), (o2, k2)]), m=m, exh=1))
+    # the same range over the ids {0,1,2} (0 is falsy in Python), multiplicity 1
+    alts = [0, 1, 2]
+    bal = list(all_ballots(alts))
+    for o in bal:
+        out.append(case("c07.all", payload(alts, [(o, 1)]), m=3, exh=1, zero="exh"))
+    for o1, o2 in itertools.permutations(bal, 2):
+        out.append(case("c07.all", payload(alts, [(o1, 1), (o2, 1)]), m=3, exh=1, zero="exh"))
     if tier != "quick":
         alts = [1, 2, 3, 4]
         bal = [o for o in all_ballots(alts) if sum(len(c) for c in o) == 4]
@@ -122,15 +132,29 @@ def random_case(rng, idx, mmax):
     else:
         alts = [10 ** 12 + x for x in rng.sample(range(1000), m)]
     rng.shuffle(alts)
+    # the id 0 (falsy in Python) in ~20% of the instances, in a chosen role: alts[0] is the planted winner / the
+    # first of the tied pair, alts[1] the second of the tied pair, alts[-1] the alternative nobody ranks
     kind = rng.choice(["soc", "soi", "toc", "toi", "toi", "toc"])
-    pattern = rng.choice(["none", "tied_pair", "unranked", "apart", "winner", "weak_winner", "cycle", "cycle", "none"])
+    pattern = rng.choice(["none", "tied_pair", "unranked", "apart", "winner", "weak_winner", "cycle", "cycle", "none",
+                          "knife", "knife"])
+    zero = ""
+    if rng.random() < 0.2 or 0 in alts:
+        if 0 not in alts:
+            alts[rng.randrange(m)] = 0
+        zero = {"winner": "x", "weak_winner": "x", "knife": "x", "tied_pair": rng.choice("xy"),
+                "apart": rng.choice("xy"), "unranked": "last"}.get(pattern, "any")
+        if zero != "any":
+            alts.remove(0)
+            alts.insert({"x": 0, "y": 1, "last": len(alts)}[zero], 0)
     complete = kind in ("soc", "toc")
     p_tie = 0.0 if kind in ("soc", "soi") else rng.choice([0.2, 0.5, 0.8])
     nb = rng.randint(1, 6)
     if pattern == "cycle":
         nb = max(3, len(alts) - (1 if rng.random() < 0.3 else 0))
     base, rot = None, 0
-    big = rng.random() < 0.1
+    big = rng.random() < 0.2
+    if pattern == "knife":
+        nb = 2
     x, y = alts[0], alts[1]
     pool = list(alts)
     if pattern == "unranked" and m > 2:
@@ -150,6 +174,11 @@ def random_case(rng, idx, mmax):
                 o = [[x]] + o
             else:
                 o = [o[0] + [x]] + o[1:]
+        elif pattern == "knife":
+            # x on top of the first ballot and at the bottom of the second: every margin of x is mult1 - mult2
+            kp = pool if complete or len(pool) < 3 else pool[:-1]
+            rest = rand_weak_order(rng, [a for a in kp if a != x], p_tie, complete=True)
+            o = [[x]] + rest if not orders else rest + [[x]]
         elif pattern == "cycle" and m >= 3:
             # rotations of one ranking of the pool: with equal multiplicities nobody is even a weak winner
             if not orders:
@@ -172,8 +201,15 @@ def random_case(rng, idx, mmax):
             orders.append(o)
     if pattern == "cycle" and rng.random() < 0.7:
         mult = [rng.choice([1, 1, 2, 3, 10 ** 12])] * len(orders)
+    elif pattern == "knife" and len(orders) == 2:
+        # margins of +1 / 0 / -1 on top of a count that a float64 / int64 cannot hold exactly
+        b = rng.choice([2 ** 53, 2 ** 53 + 2 * rng.randint(1, 1000), 2 ** 63 - 1, 2 ** 63, 2 ** 64, 10 ** 30 + 6, 3])
+        d = rng.choice([1, 1, 0, -1])
+        mult = [b + max(d, 0), b + max(-d, 0)]
     elif big:
-        mult = [rng.choice([1, 10 ** 12, 10 ** 12 + 1, 2 ** 64]) for _ in orders]
+        pool_m = [2 ** 53 - 1, 2 ** 53 + 1, 2 ** 53 + 2 * rng.randint(1, 10 ** 6) + 1, 2 ** 63 - 1, 2 ** 63 + 1,
+                  2 ** 64 + 1, 10 ** 30 + 7, 1, 2]
+        mult = [rng.choice(pool_m) for _ in orders]
     else:
         mult = [rng.randint(1, 4) for _ in orders]
     prof = list(zip(orders, mult))
@@ -185,7 +221,7 @@ def random_case(rng, idx, mmax):
         guard = 1
     names = {a: _name(rng, a) for a in alts}
     parse = 1 if (not guard and idx % 5 == 0) else 0      # every fifth instance goes through the real parser
-    return case("c07.all", payload(alts, prof, dt, names), m=m, pattern=pattern, guard=guard, parse=parse)
+    return case("c07.all", payload(alts, prof, dt, names), m=m, pattern=pattern, guard=guard, parse=parse, zero=zero)
 
 
 # ------------------------------------------------------------------ implementation side
@@ -221,27 +257,28 @@ def build_via_parser(pl):
     return inst
 
 
-def _is_int(v):
-    return isinstance(v, int) and not isinstance(v, bool) or (hasattr(v, "__index__") and not isinstance(v, bool))
+def _num(v, what):
+    """exact integer value of a table entry: ints as they are; a float only if it is integral (converted exactly, so
+    a float that lost low-order bits compares unequal to the model's integer); anything else is not a count"""
+    if isinstance(v, bool):
+        raise TypeError("%s is a bool: %r" % (what, v))
+    if isinstance(v, int) or hasattr(v, "__index__"):
+        return int(v)
+    if isinstance(v, float) and v == v and v not in (float("inf"), float("-inf")) and v.is_integer():
+        return int(v)
+    raise TypeError("non-integer %s %r" % (what, v))
 
 
 def _table(d):
     out = []
     for a, row in d.items():
         for b, v in row.items():
-            if not _is_int(v):
-                raise TypeError("non-integer table entry %r" % (v,))
-            out.append([int(a), int(b), int(v)])
+            out.append([int(a), int(b), _num(v, "table entry")])
     return sorted(out)
 
 
 def _borda(d):
-    out = []
-    for a, v in d.items():
-        if not _is_int(v):
-            raise TypeError("non-integer Borda score %r" % (v,))
-        out.append([int(a), int(v)])
-    return sorted(out)
+    return sorted([int(a), _num(v, "Borda score")] for a, v in d.items())
 
 
 def _parse_pwg(s, m):
@@ -384,6 +421,22 @@ def stats(c, r, m):
     out = ["m=%d" % len(an) if len(an) <= 7 else "m>7", "type=%s" % DT[min(dt, 6)], "ballots=%d" % len(mult)]
     if c["tags"].get("parse"):
         out.append("instance built by OrdinalInstance.parse_str")
+    if 0 in alts:
+        out.append("id 0 present")
+        z, pat = c["tags"].get("zero"), c["tags"].get("pattern")
+        if z == "x" and pat in ("winner", "weak_winner", "knife"):
+            out.append("id 0 is the planted (weak / knife-edge) Condorcet winner")
+        if z in ("x", "y") and pat == "tied_pair" and dt in (2, 3):
+            out.append("id 0 is one of the two alternatives tied in every ballot")
+        if z in ("x", "y") and pat == "apart":
+            out.append("id 0 is one of the two alternatives never ranked together")
+        if not any(0 in cl for o, _ in mult for cl in o):
+            out.append("id 0 ranked by nobody")
+    mx = max([k for _, k in mult] or [0])
+    if mx > 2 ** 53:
+        out.append("multiplicity > 2**53" if mx < 2 ** 63 else "multiplicity >= 2**63")
+    if c["tags"].get("pattern") == "knife" and len(mult) == 2 and mult[0][1] > 2 ** 53:
+        out.append("knife-edge margin %+d beyond 2**53" % (mult[0][1] - mult[1][1]))
     ranked = {a for o, _ in mult for cl in o for a in cl}
     if len(ranked) < len(alts):
         out.append("has an alternative nobody ranks")
